@@ -272,11 +272,87 @@ def zero_code(body: bytes, rng, style: str) -> bytes:
     return bytes(out)
 
 
+# ------------------------------------------------------------------------------------------
+# wire values a decoder accepts although no well-behaved sender produces them (input generation only)
+# ------------------------------------------------------------------------------------------
+import struct as _struct
+
+PRIM_W = {"U8": 1, "S8": 1, "BOOL": 1, "U16": 2, "S16": 2, "IPPORT": 2, "U32": 4, "S32": 4, "F32": 4, "IPADDR": 4, "U64": 8, "S64": 8,
+          "F64": 8, "LLVector3": 12, "LLQuaternion": 12, "LLVector4": 16, "LLUUID": 16, "LLVector3d": 24}
+_F32_BITS = [0x00000001, 0x007FFFFF, 0x00800000, 0x80000000, 0x80000001, 0x7F7FFFFF, 0xFF7FFFFF, 0x7F800000, 0xFF800000,
+             0x3F800001, 0x33800000, 0x00000000]
+_F64_BITS = [1, 0x000FFFFFFFFFFFFF, 0x0010000000000000, 1 << 63, (1 << 63) | 1, 0x7FEFFFFFFFFFFFFF, 0x7FF0000000000000,
+             0xFFF0000000000000, 0x3FF0000000000001, 0]
+
+
+def _f32(rng):
+    if rng.random() < 0.6:
+        return _struct.pack("<I", rng.choice(_F32_BITS))
+    while True:
+        b = rng.getrandbits(32)
+        if (b >> 23) & 0xFF != 0xFF or b & 0x7FFFFF == 0:      # no NaN (outside the claimed domain)
+            return _struct.pack("<I", b)
+
+
+def _f64(rng):
+    if rng.random() < 0.6:
+        return _struct.pack("<Q", rng.choice(_F64_BITS))
+    while True:
+        b = rng.getrandbits(64)
+        if (b >> 52) & 0x7FF != 0x7FF or b & ((1 << 52) - 1) == 0:
+            return _struct.pack("<Q", b)
+
+
+# three float32 components; squared length > 1 grossly, by one rounding step (0.6f, 0.8f), far beyond, exactly 1, tiny
+QUAT_WIRE = [(0.6, 0.8, 0.1), (0.6, 0.8, 0.0), (0.8, -0.6, 0.0), (2.0, 0.0, 0.0), (-1.0, 0.0, 1e-4), (1.0, 1.0, 1.0), (0.70710678, 0.70710678, 0.0),
+             (1e30, 0.0, 0.0), (0.0, -1.0, 0.0), (1e-20, 1e-30, 0.0), (0.1, 0.2, 0.3), (-0.0, 0.0, -0.0)]
+
+
+def wire_value(rng, t: str, quat=None) -> bytes:
+    """Bytes for a variable of primitive type t taken from the whole wire domain of the type."""
+    if t == "LLQuaternion":
+        q = quat or rng.choice(QUAT_WIRE)
+        return _struct.pack("<3f", *q) if rng.random() < 0.85 or quat else b"".join(_f32(rng) for _ in range(3))
+    if t == "F32":
+        return _f32(rng)
+    if t == "F64":
+        return _f64(rng)
+    if t in ("LLVector3", "LLVector4"):
+        return b"".join(_f32(rng) for _ in range(PRIM_W[t] // 4))
+    if t == "LLVector3d":
+        return b"".join(_f64(rng) for _ in range(3))
+    w = PRIM_W[t]
+    c = rng.randrange(5)
+    if t == "BOOL":
+        return bytes([rng.choice([0, 1, 2, 127, 128, 255])])
+    return (b"\x00" * w if c == 0 else b"\xff" * w if c == 1 else b"\x00" * (w - 1) + b"\x80" if c == 2 else
+            b"\xff" * (w - 1) + b"\x7f" if c == 3 else bytes(rng.randrange(256) for _ in range(w)))
+
+
+def body_layout(shape, prefix: int, typed):
+    """[(offset in body, width, type)] of the primitive variables, and the total body length, from the typed
+    values the message was generated from."""
+    off = prefix
+    out = []
+    for sb, insts in zip(shape["blocks"], typed):
+        if sb["kind"] == "Variable":
+            off += 1
+        for inst in insts:
+            for v, tv in zip(sb["vars"], inst):
+                if v["t"] in ("Fixed", "Variable"):
+                    n = len(tv["b"]) + (1 if tv["k"] == "str" else 0)
+                    off += n + (v["size"] if v["t"] == "Variable" else 0)
+                else:
+                    out.append((off, PRIM_W[v["t"]], v["t"]))
+                    off += PRIM_W[v["t"]]
+    return out, off
+
+
 HISTORIES = [("R",), ("H", "R"), ("B", "R"), ("H", "B", "R"), ("B", "H", "R"), ("R", "B", "R"), ("B", "B", "R"),
              ("B", "R", "R"), ("R", "H", "B", "R")]
 
 
-def real(chk: Check, per_template, shards, long_zero=4, many_blocks=4, zero_rounds=1):
+def real(chk: Check, per_template, shards, long_zero=4, many_blocks=4, zero_rounds=1, wire_rounds=3, quat_all=False):
     I = impl()
     rng = chk.rng
     pairs = c01.real_shapes(chk)
@@ -286,14 +362,15 @@ def real(chk: Check, per_template, shards, long_zero=4, many_blocks=4, zero_roun
     traces, infos = [], []
     stats = {}
     zero_runs_seen = set()
+    wire_types_seen = {}
 
     def note(k):
         stats[k] = stats.get(k, 0) + 1
 
-    def one(shape, tmpl, maxlen=12, force_style=None, counts=(0, 1, 1, 2), kinds=None, big_count=0, force=None, tag=None):
+    def one(shape, tmpl, maxlen=12, force_style=None, counts=(0, 1, 1, 2), kinds=None, big_count=0, force=None, tag=None, wire=None):
         hdr, bp, ty, _ = c01.gen_message(I, rng, shape, tmpl, counts=counts, maxlen=maxlen, force=force,
                                          hdr=dict(c01.gen_header(rng, rich=False), flags=0, acks=[]))
-        kind = rng.choice(kinds or ["pristine", "pristine", "truncate", "extend", "drop-blocks", "flip", "truncate-z"])
+        kind = rng.choice(kinds or ["pristine", "wire-values", "wire-values", "truncate", "extend", "drop-blocks", "flip", "truncate-z"])
         if force_style:
             kind = "pristine"
         if kind == "drop-blocks" and len(bp) >= 2:
@@ -316,6 +393,20 @@ def real(chk: Check, per_template, shards, long_zero=4, many_blocks=4, zero_roun
             base = b0[:-1] + bytes([big_count]) + (inst * 4)[:big_count * (len(inst) // 64)]
         body = base[6:]
         prefix = len(tmpl.freq_num_bytes) + len(hdr["extra"])
+        if (kind == "wire-values" or wire) and not big_count:
+            # overwrite primitive variables in place with values from the whole wire domain of their type
+            layout, total = body_layout(shape, prefix, ty[:len(bp)])
+            if total != len(body):
+                note("layout-mismatch")
+            elif layout:
+                bb = bytearray(body)
+                picks = layout if wire else rng.sample(layout, min(len(layout), rng.randrange(1, 5)))
+                for off, w, t in picks:
+                    nv = wire(t) if wire else wire_value(rng, t)
+                    if nv is not None:
+                        bb[off:off + w] = nv
+                        wire_types_seen[t] = wire_types_seen.get(t, 0) + 1
+                body = bytes(bb)
         if kind == "truncate" and len(body) > prefix:
             body = body[:rng.randrange(prefix, len(body))] if rng.random() < 0.9 else body[:rng.randrange(1, prefix + 1)]
         elif kind == "extend":
@@ -341,7 +432,7 @@ def real(chk: Check, per_template, shards, long_zero=4, many_blocks=4, zero_roun
             tail = b"".join(a.to_bytes(4, "big") for a in reversed(acks)) + bytes([len(acks)])
         data = bytes([flags]) + base[1:6] + body + tail
         mode = rng.choice(["eager", "deferred", "deferred"])
-        ops = rng.choice(HISTORIES if not force else [h for h in HISTORIES if "B" in h])
+        ops = rng.choice(HISTORIES if not (force or wire) else [h for h in HISTORIES if "B" in h])
         ser, des, _ = codecs[mode]
         looks = BODY_LOOKS[:]
         rng.shuffle(looks)
@@ -373,6 +464,23 @@ def real(chk: Check, per_template, shards, long_zero=4, many_blocks=4, zero_roun
             one(shape, tmpl, force_style=["wrap", "split", "canonical", "wrap"][k % 4])
         finally:
             c01.gen_bytes_field = saved
+    # every rotation field of the real template with every out-of-the-ordinary wire quaternion
+    quat_templates = [(s_, t_) for s_, t_ in pairs if any(v["t"] == "LLQuaternion" for b in s_["blocks"] for v in b["vars"])]
+    for shape, tmpl in quat_templates:
+        for q in (QUAT_WIRE if quat_all else rng.sample(QUAT_WIRE, 4) + QUAT_WIRE[:2]):
+            one(shape, tmpl, maxlen=6, counts=(1,), kinds=["pristine"], tag="wire-quaternion",
+                wire=lambda t, q=q: wire_value(rng, t, quat=q) if t == "LLQuaternion" else None)
+    # every primitive type at least a few times
+    for t in sorted(PRIM_W):
+        cands = [(s_, t_) for s_, t_ in pairs if any(v["t"] == t for b in s_["blocks"] for v in b["vars"])
+                 and sum(len(b["vars"]) for b in s_["blocks"]) <= 40]
+        for _ in range(wire_rounds if cands else 0):
+            shape, tmpl = rng.choice(cands)
+            one(shape, tmpl, maxlen=6, counts=(1, 2), kinds=["pristine"], tag="wire-" + t,
+                wire=lambda tt, t=t: wire_value(rng, tt) if tt == t else None)
+    chk.cov["wire_values_substituted_by_type"] = dict(sorted(wire_types_seen.items()))
+    if not chk.violations and not chk.known_hits and any(t not in wire_types_seen for t in ("LLQuaternion", "F32", "F64", "U64", "IPADDR", "IPPORT", "BOOL")):
+        raise MachineryError("vacuous run: wire values of some primitive type were never substituted")
     # zero runs around the 255 boundaries of zero-coding at the start / in the middle / at the end of a payload (of the
     # body when the field is its last), canonically zero-coded by the harness, parsed, re-encoded
     sites = c01.zero_run_sites(pairs)
@@ -417,5 +525,5 @@ def run(chk: Check):
         real(chk, 2, shards=6)
     else:
         mini(chk, "{0, 1, 255}", 6, "{0, 128, 16, 144}", 3, 2, shards=14, split=True)
-        real(chk, 30, shards=14, long_zero=24, many_blocks=40, zero_rounds=6)
+        real(chk, 30, shards=14, long_zero=24, many_blocks=40, zero_rounds=6, wire_rounds=30, quat_all=True)
     chk.cov["exhaustive"] = True
